@@ -257,6 +257,35 @@ func minimizeRec(rc recCase, clause string, fails func(recCase) *Violation) recC
 				changed = true
 			}
 		}
+		// drop single bytes of the message
+		if m := rc.msg(); len(m) > 1 && len(m) <= 64 {
+			for i := 0; i < len(m); i++ {
+				c := rc.clone()
+				c.MsgQ = qk(m[:i] + m[i+1:])
+				if still(c) {
+					rc = c
+					changed = true
+					m = rc.msg()
+					i--
+				}
+			}
+		}
+		if rc.LOW != 0 || rc.MMW != 0 {
+			c := rc.clone()
+			c.LOW, c.MMW = 0, 0
+			if still(c) {
+				rc = c
+				changed = true
+			}
+		}
+		if rc.Level != int(slog.InfoLevel) {
+			c := rc.clone()
+			c.Level = int(slog.InfoLevel)
+			if still(c) {
+				rc = c
+				changed = true
+			}
+		}
 		if rc.Caller {
 			c := rc.clone()
 			c.Caller = false
@@ -308,6 +337,12 @@ func removeAt(ns *[]attrNode, p []int) bool {
 // recSig renders the minimal case for a signature.
 func recSig(rc recCase) string {
 	s := fmt.Sprintf("msg=%s attrs=[%s]", rc.MsgQ, nodesString(rc.Attrs))
+	if rc.Level != int(slog.InfoLevel) {
+		s += fmt.Sprintf(" level=%d", rc.Level)
+	}
+	if rc.LOW != 0 || rc.MMW != 0 {
+		s += fmt.Sprintf(" widths=%d/%d", rc.LOW, rc.MMW)
+	}
 	if rc.Caller {
 		s += " caller"
 	}
